@@ -17,11 +17,13 @@ PLAN = dict(
     floor=dict(quick=400, thorough=12000),
     tiers=dict(
         quick=[det("rel", H, "cs-rel", 16, 80, 4, tso=True, time_cap=28),
-               det("dbg", H, "cs-dbg", 16, 32, 4, tso=True, time_cap=22)],
+               det("dbg", H, "cs-dbg", 16, 32, 4, tso=True, time_cap=22),
+               tsan("C20", 4, 80)],
         thorough=[det("rel", H, "cs-rel", 16, 1500, 5, tso=True, time_cap=230),
                   det("dbg", H, "cs-dbg", 16, 500, 5, tso=True, time_cap=150),
                   det("enum-wake", H, "cs-rel", 16, 30, 2, tso=True, time_cap=70, enum="wake", enum_cap=150),
-                  det("enum-rmw", H, "cs-rel", 16, 20, 2, tso=True, time_cap=90, enum="rmw", enum_cap=400)],
+                  det("enum-rmw", H, "cs-rel", 16, 20, 2, tso=True, time_cap=90, enum="rmw", enum_cap=400),
+               tsan("C20", 16, 600)],
     ),
 )
 TEXT = dict(
